@@ -32,6 +32,29 @@ Definition estart (t : tok) : bool :=
   | _ => false
   end.
 
+Lemma list_eqb_eq {A} (eq : A -> A -> bool) : forall l l',
+  (forall x y, In x l -> eq x y = true -> x = y) -> list_eqb eq l l' = true -> l = l'.
+Proof.
+  induction l as [|x l IH]; intros [|y l'] Hel H; try discriminate; [reflexivity|].
+  cbn in H. apply andb_prop in H. destruct H as [H1 H2].
+  rewrite (Hel x y (or_introl eq_refl) H1). f_equal. apply IH; [|exact H2]. intros a b Ha. apply Hel. right. exact Ha.
+Qed.
+
+Lemma annot_eqb_eq : forall n a b, annot_size a <= n -> annot_eqb a b = true -> a = b.
+Proof.
+  induction n as [|n IH]; intros a b Hsz H; [destruct a; cbn in Hsz; lia|].
+  destruct a as [k|x tas|x|ps r], b as [k'|x' tas'|x'|ps' r']; cbn [annot_eqb] in H; try discriminate.
+  - destruct k, k'; try discriminate; reflexivity.
+  - apply andb_prop in H. destruct H as [H1 H2]. apply Nat.eqb_eq in H1. subst. f_equal.
+    apply (list_eqb_eq annot_eqb); [|exact H2]. intros y z Hy. apply IH.
+    pose proof (in_size_le annot_size y tas Hy). cbn [annot_size] in Hsz. lia.
+  - apply Nat.eqb_eq in H. subst. reflexivity.
+  - apply andb_prop in H. destruct H as [H1 H2]. cbn [annot_size] in Hsz. f_equal.
+    + apply (list_eqb_eq annot_eqb); [|exact H1]. intros y z Hy. apply IH.
+      pose proof (in_size_le annot_size y ps Hy). lia.
+    + apply (IH r r'); [lia|exact H2].
+Qed.
+
 (* ------------------------------------------------------------------ the shape of printed expressions *)
 Section Heads.
 Variable dec : fexpr -> side -> bool.
@@ -394,5 +417,668 @@ Proof.
     change (TLow x :: t' :: rest' ++ tails (fpr dec) more ++ TP RParen :: ts)
       with ((TLow x :: t' :: rest') ++ tails (fpr dec) more ++ TP RParen :: ts). rewrite <- E.
     rewrite (He0 _ (sep_tail_tails more ts)). apply Hcollect. eapply not_xid_of_print; [exact E|right; discriminate].
+Qed.
+
+Lemma tuple_rt e1 e2 es ts : (forall x, In x (e1 :: e2 :: es) -> fsuff dec x = true /\ E0 x) ->
+  (length (e1 :: e2 :: es) <= MAX_STRUCT_SIZE \/ forallb is_xid (e1 :: e2 :: es) = true) -> ffollow_ok 9 ts ->
+  P (MLevel 9) (TP LParen :: commas (map (fpr dec) (e1 :: e2 :: es)) ++ TP RParen :: ts) = Some (XTuple (e1 :: e2 :: es), ts).
+Proof.
+  intros Hall Hsz Hf. rewrite P_level9. cbn [base_expr]. unfold paren_expr. rewrite commas_cons, <- app_assoc.
+  destruct (Hall e1 (or_introl eq_refl)) as [Hs1 He1].
+  assert (Hmore : forall x, In x (e2 :: es) -> fsuff dec x = true /\ E0 x) by (intros x Hx; apply Hall; right; exact Hx).
+  destruct (fpr_head dec e1 Hs1) as (t & rest & E & _ & Het).
+  assert (Hrp : hd_is (is_p RParen) (fpr dec e1 ++ tails (fpr dec) (e2 :: es) ++ TP RParen :: ts) = false).
+  { rewrite E. cbn [app hd_is]. apply estart_not_p; [exact Het|discriminate..]. }
+  rewrite Hrp.
+  assert (Hle : is_xid e1 = false -> length (e1 :: e2 :: es) <= MAX_STRUCT_SIZE).
+  { intros Hx. destruct Hsz as [Hsz|Hsz]; [exact Hsz|]. cbn [forallb] in Hsz. rewrite Hx in Hsz. discriminate. }
+  assert (Hdefault : (forall x, t <> TLow x) ->
+     match paren_list (P (MLevel 0)) (Some MAX_STRUCT_SIZE) (fpr dec e1 ++ tails (fpr dec) (e2 :: es) ++ TP RParen :: ts) with
+     | Some (es0, r1) => match es0 with [e] => Some (e, r1) | _ => Some (XTuple es0, r1) end
+     | None => None
+     end = Some (XTuple (e1 :: e2 :: es), ts)).
+  { intros Hnl. unfold paren_list. rewrite Hrp.
+    pose proof (seplist_rt (P (MLevel 0)) (is_p RParen) (fpr dec) (fun x => x) sep_tail e1 (e2 :: es)
+                  (S (length (fpr dec e1 ++ tails (fpr dec) (e2 :: es) ++ TP RParen :: ts))) (TP RParen) ts) as H.
+    rewrite commas_cons, <- app_assoc in H. rewrite H; clear H.
+    - rewrite map_id. pose proof (Hle (not_xid_of_print e1 t rest E (or_introl Hnl))) as Hl.
+      destruct (Nat.ltb_spec MAX_STRUCT_SIZE (length (e1 :: e2 :: es))); [lia|]. rewrite expect_same. reflexivity.
+    - rewrite !app_length. pose proof (tails_length (fpr dec) (e2 :: es)). lia.
+    - discriminate.
+    - exact I.
+    - intros l. exact I.
+    - intros y Hy. apply fpr_starts_ok. apply Hmore. exact Hy.
+    - intros y tail Hy Hfl. apply (proj2 (Hall y Hy)). exact Hfl. }
+  destruct t as [q|p|x|y|z|s|o];
+    try (rewrite E in Hdefault |- *; cbn [app] in Hdefault |- *; apply Hdefault; discriminate).
+  clear Hdefault.
+  destruct (fpr_head_id dec e1 x rest E) as [[-> ->]|(t' & rest' & -> & Hn1 & Hn2 & Hn3)].
+  - cbn [fpr app]. assert (Hc : hd_is (is_p Comma) (tails (fpr dec) (e2 :: es) ++ TP RParen :: ts) = true) by reflexivity.
+    assert (Hc2 : hd_is (is_p Colon) (tails (fpr dec) (e2 :: es) ++ TP RParen :: ts) = false) by reflexivity.
+    rewrite Hc, Hc2. rewrite (cover_tuple (e2 :: es) [x]); [reflexivity|exact Hmore|discriminate|discriminate| |exact Hf|].
+    + rewrite app_length. pose proof (tails_length (fpr dec) (e2 :: es)). lia.
+    + destruct Hsz as [Hsz|Hsz]; [left; cbn [length] in *; lia|right]. cbn [forallb is_xid andb] in Hsz. exact Hsz.
+  - rewrite E. cbn [app hd_is]. rewrite (is_p_false Colon t' Hn3), (is_p_false Comma t' Hn2), (is_p_false RParen t' Hn1).
+    rewrite frombase_of_level0.
+    change (TLow x :: t' :: rest' ++ tails (fpr dec) (e2 :: es) ++ TP RParen :: ts)
+      with ((TLow x :: t' :: rest') ++ tails (fpr dec) (e2 :: es) ++ TP RParen :: ts). rewrite <- E.
+    rewrite (He1 _ (sep_tail_tails (e2 :: es) ts)).
+    assert (Hc : hd_is (is_p Comma) (tails (fpr dec) (e2 :: es) ++ TP RParen :: ts) = true) by reflexivity.
+    rewrite Hc. rewrite (collect_rt [e1] (e2 :: es) ts); [reflexivity|exact Hmore| |cbn [app length]; lia].
+    apply Hle. eapply not_xid_of_print; [exact E|right; discriminate].
+Qed.
+
+(* ---- lambdas *)
+Definition pr_oannot (oa : option annot) : list tok :=
+  match oa with None => [] | Some a => TP Colon :: pr_annot a end.
+Lemma pr_param_eq x oa : pr_param (x, oa) = TLow x :: pr_oannot oa.
+Proof. destruct oa; reflexivity. Qed.
+
+Lemma annot_ok_canon a : annot_ok tps a = true -> canon tps a = a.
+Proof. unfold annot_ok. intros H. symmetry. symmetry. eapply annot_eqb_eq; [apply le_n|exact H]. Qed.
+
+(* the tail after an optional annotation: no `:` and no `<` *)
+Definition annot_tail (ts : list tok) : Prop :=
+  match ts with TP Colon :: _ | TOp Lt :: _ => False | _ => True end.
+
+Lemma opt_annot_rt oa tail : oannot_ok tps oa = true -> annot_tail tail ->
+  opt_annot tps (pr_oannot oa ++ tail) = Some (oa, tail).
+Proof.
+  intros Hok Ht. unfold opt_annot. destruct oa as [a|]; cbn [pr_oannot app hd_is is_p punct_eqb].
+  - rewrite expect_same. rewrite annot_roundtrip'.
+    + rewrite (annot_ok_canon a Hok). reflexivity.
+    + destruct tail as [|[q|p|x|x|z|s|o] tl]; try exact I. destruct o; try exact I. destruct Ht.
+  - destruct tail as [|[q|p|x|x|z|s|o] tl]; try reflexivity. destruct p; try reflexivity. destruct Ht.
+Qed.
+
+Definition param_tail (ts : list tok) : Prop :=
+  match ts with TP Comma :: _ | TP RParen :: _ => True | _ => False end.
+Lemma param_tail_annot ts : param_tail ts -> annot_tail ts.
+Proof. destruct ts as [|[q|p|x|x|z|s|o] tl]; cbn; try tauto. destruct p; tauto. Qed.
+
+Lemma opt_annot_id_rt x oa tail : oannot_ok tps oa = true -> param_tail tail ->
+  opt_annot_id tps (pr_param (x, oa) ++ tail) = Some ((x, oa), tail).
+Proof.
+  intros Hok Ht. rewrite pr_param_eq. cbn [app opt_annot_id]. rewrite opt_annot_rt; [reflexivity|exact Hok|].
+  apply param_tail_annot. exact Ht.
+Qed.
+
+Section Lambda.
+Variables (b : fexpr) (body ts : list tok).
+Hypothesis Hbody : P (MLevel 0) (body ++ ts) = Some (b, ts).
+
+Lemma lambda_rest_rt before more : (forall p, In p more -> oannot_ok tps (snd p) = true) ->
+  lambda_rest tps (P (MLevel 0)) before (tails pr_param more ++ TP RParen :: TP Arrow :: body ++ ts)
+  = Some (XLam (before ++ more) b, ts).
+Proof.
+  intros Hok. unfold lambda_rest.
+  rewrite (seprest_rt (opt_annot_id tps) (is_p RParen) pr_param (fun x => x) param_tail more _ (TP RParen) (TP Arrow :: body ++ ts)).
+  - rewrite !expect_same, Hbody, map_id. reflexivity.
+  - rewrite app_length. pose proof (tails_length pr_param more). lia.
+  - discriminate.
+  - exact I.
+  - intros l. exact I.
+  - intros [y oa] Hy. unfold starts_ok. rewrite pr_param_eq. eexists _, _. split; reflexivity.
+  - intros [y oa] tail Hy Hf. apply opt_annot_id_rt; [exact (Hok _ Hy)|exact Hf].
+Qed.
+
+Lemma param_tail_tails more l : param_tail (tails pr_param more ++ TP RParen :: l).
+Proof. destruct more; cbn; exact I. Qed.
+
+Lemma cover_lambda : forall params ids n,
+  (forall p, In p params -> oannot_ok tps (snd p) = true) -> params <> [] -> length params < n ->
+  cover tps P n ids (tails pr_param params ++ TP RParen :: TP Arrow :: body ++ ts)
+  = Some (XLam (map (fun i => (i, None)) ids ++ params) b, ts).
+Proof.
+  induction params as [|[y oa] more IH]; intros ids n Hok Hne Hn; [congruence|].
+  destruct n as [|n]; [cbn in Hn; lia|].
+  assert (Hmore : forall p, In p more -> oannot_ok tps (snd p) = true) by (intros p Hp; apply Hok; right; exact Hp).
+  cbn [tails flat_map app cover]. fold (tails pr_param more). rewrite pr_param_eq. cbn [app]. rewrite <- app_assoc.
+  destruct oa as [a|]; cbn [pr_oannot app].
+  - cbn [hd_is is_p punct_eqb].
+    pose proof (opt_annot_rt (Some a) (tails pr_param more ++ TP RParen :: TP Arrow :: body ++ ts)
+                  (Hok _ (or_introl eq_refl)) (param_tail_annot _ (param_tail_tails more _))) as Ho.
+    cbn [pr_oannot app] in Ho. rewrite Ho.
+    rewrite lambda_rest_rt by exact Hmore. rewrite <- app_assoc. reflexivity.
+  - destruct more as [|p2 more'].
+    + cbn [tails flat_map app hd_is is_p punct_eqb]. unfold cover_end. rewrite !expect_same. cbn [hd_is is_p punct_eqb].
+      rewrite Hbody, map_app. reflexivity.
+    + assert (Hc : hd_is (is_p Comma) (tails pr_param (p2 :: more') ++ TP RParen :: TP Arrow :: body ++ ts) = true) by reflexivity.
+      rewrite Hc. rewrite (IH (ids ++ [y]) n); [|exact Hmore|discriminate|cbn [length] in *; lia].
+      rewrite map_app, <- app_assoc. reflexivity.
+Qed.
+
+Lemma lambda_rt ps : (forall p, In p ps -> oannot_ok tps (snd p) = true) ->
+  P (MLevel 9) (TP LParen :: commas (map pr_param ps) ++ TP RParen :: TP Arrow :: body ++ ts) = Some (XLam ps b, ts).
+Proof.
+  intros Hok. rewrite P_level9. cbn [base_expr]. unfold paren_expr. destruct ps as [|[x oa] more].
+  - cbn [map commas app hd_is is_p punct_eqb]. rewrite !expect_same, Hbody. reflexivity.
+  - rewrite commas_cons, <- app_assoc, pr_param_eq. cbn [app hd_is is_p].
+    assert (Hmore : forall p, In p more -> oannot_ok tps (snd p) = true) by (intros p Hp; apply Hok; right; exact Hp).
+    destruct oa as [a|]; cbn [pr_oannot app].
+    + cbn [hd_is is_p punct_eqb].
+      pose proof (opt_annot_rt (Some a) (tails pr_param more ++ TP RParen :: TP Arrow :: body ++ ts)
+                    (Hok _ (or_introl eq_refl)) (param_tail_annot _ (param_tail_tails more _))) as Ho.
+      cbn [pr_oannot app] in Ho. rewrite Ho.
+      rewrite lambda_rest_rt by exact Hmore. reflexivity.
+    + destruct more as [|p2 more'].
+      * cbn [tails flat_map app hd_is is_p punct_eqb]. rewrite !expect_same. cbn [hd_is is_p punct_eqb]. rewrite Hbody. reflexivity.
+      * assert (Hc : hd_is (is_p Comma) (tails pr_param (p2 :: more') ++ TP RParen :: TP Arrow :: body ++ ts) = true) by reflexivity.
+        assert (Hc2 : hd_is (is_p Colon) (tails pr_param (p2 :: more') ++ TP RParen :: TP Arrow :: body ++ ts) = false) by reflexivity.
+        rewrite Hc, Hc2. rewrite (cover_lambda (p2 :: more') [x]); [reflexivity|exact Hmore|discriminate|].
+        rewrite app_length. pose proof (tails_length pr_param (p2 :: more')). lia.
+Qed.
+End Lambda.
+
+(* ---- blocks *)
+Lemma pr_binder_eq p oa : pr_binder (Some (p, oa)) = TK KLet :: pr_pat p ++ pr_oannot oa ++ [TP Assign].
+Proof. destruct oa; cbn [pr_binder pr_oannot app]; rewrite <- ?app_assoc; reflexivity. Qed.
+
+Definition stmt_ok (s : stmt) : Prop :=
+  fsuff dec (snd s) = true /\ E0 (snd s) /\
+  match fst s with Some (p, oa) => wf_pat p = true /\ oannot_ok tps oa = true | None => True end.
+
+Lemma block_loop_default t l n : estart t = true ->
+  block_loop tps (P (MLevel 0)) (S n) (t :: l) =
+  match P (MLevel 0) (t :: l) with
+  | Some (e, r) =>
+      if hd_is (is_p Semi) r then
+        match expect Semi r with
+        | Some r0 => match block_loop tps (P (MLevel 0)) n r0 with
+                     | Some (b, r') => Some (((None, e) :: fst b, snd b), r')
+                     | None => None end
+        | None => None end
+      else match expect RBrace r with Some r0 => Some (([], Some e), r0) | None => None end
+  | None => None
+  end.
+Proof. destruct t as [q|p|x|x|z|s|o]; try discriminate; try reflexivity; [destruct q|destruct p]; try discriminate; reflexivity. Qed.
+
+Lemma let_stmt_rt p oa x tail : wf_pat p = true -> oannot_ok tps oa = true -> E0 x ->
+  let_stmt tps (P (MLevel 0)) (pr_binder (Some (p, oa)) ++ fpr dec x ++ TP Semi :: tail) = Some ((Some (p, oa), x), tail).
+Proof.
+  intros Hp Ha Hx. unfold let_stmt. rewrite pr_binder_eq. cbn [app]. rewrite expect_kw_same.
+  rewrite <- !app_assoc. rewrite pattern_roundtrip; [|exact Hp|].
+  - rewrite opt_annot_rt; [|exact Ha|exact I]. cbn [app]. rewrite expect_same, (Hx (TP Semi :: tail) I), expect_same. reflexivity.
+  - destruct oa; exact I.
+Qed.
+
+Lemma block_loop_rt : forall ss r n ts, length ss + 1 < n ->
+  (forall s, In s ss -> stmt_ok s) ->
+  match r with Some x => fsuff dec x = true /\ E0 x | None => True end ->
+  block_loop tps (P (MLevel 0)) n
+    (flat_map (pr_stmt dec) ss ++ match r with Some x => fpr dec x | None => [] end ++ TP RBrace :: ts) = Some ((ss, r), ts).
+Proof.
+  induction ss as [|[bd x] more IH]; intros r n ts Hn Hss Hr; (destruct n as [|n]; [lia|]).
+  - cbn [flat_map app]. destruct r as [x|].
+    + destruct Hr as [Hsx Hex]. destruct (fpr_head dec x Hsx) as (t & rest & E & _ & Het).
+      rewrite E. cbn [app]. rewrite block_loop_default by exact Het.
+      change (t :: rest ++ TP RBrace :: ts) with ((t :: rest) ++ TP RBrace :: ts). rewrite <- E.
+      rewrite (Hex (TP RBrace :: ts) I). cbn [hd_is is_p punct_eqb]. rewrite expect_same. reflexivity.
+    + reflexivity.
+  - assert (Hmore : forall s, In s more -> stmt_ok s) by (intros s Hs; apply Hss; right; exact Hs).
+    destruct (Hss _ (or_introl eq_refl)) as (Hsx & Hex & Hbd). cbn [fst snd] in *.
+    cbn [flat_map]. unfold pr_stmt at 1. rewrite <- !app_assoc. cbn [app].
+    set (tail := flat_map (pr_stmt dec) more ++ match r with Some x0 => fpr dec x0 | None => [] end ++ TP RBrace :: ts).
+    destruct bd as [[p oa]|].
+    + destruct Hbd as [Hp Ha].
+      assert (Hk : exists l, pr_binder (Some (p, oa)) ++ fpr dec x ++ TP Semi :: tail = TK KLet :: l).
+      { rewrite pr_binder_eq. eexists. reflexivity. }
+      destruct Hk as [l Hl]. cbn [block_loop]. rewrite Hl. rewrite <- Hl.
+      rewrite let_stmt_rt by assumption. unfold tail. rewrite (IH r n ts); [reflexivity|cbn [length] in Hn; lia|exact Hmore|exact Hr].
+    + cbn [pr_binder app]. destruct (fpr_head dec x Hsx) as (t & rest & E & _ & Het).
+      rewrite E. cbn [app]. rewrite block_loop_default by exact Het.
+      change (t :: rest ++ TP Semi :: tail) with ((t :: rest) ++ TP Semi :: tail). rewrite <- E.
+      rewrite (Hex (TP Semi :: tail) I). cbn [hd_is is_p punct_eqb]. rewrite expect_same. unfold tail.
+      rewrite (IH r n ts); [reflexivity|cbn [length] in Hn; lia|exact Hmore|exact Hr].
+Qed.
+
+Lemma stmts_length ss l : length ss + length l <= length (flat_map (pr_stmt dec) ss ++ l).
+Proof.
+  induction ss as [|[bd x] more IH]; cbn [flat_map length app]; [lia|]. unfold pr_stmt at 1.
+  rewrite !app_length in *. cbn [length]. lia.
+Qed.
+
+Lemma block_rt ss r ts : (forall s, In s ss -> stmt_ok s) ->
+  match r with Some x => fsuff dec x = true /\ E0 x | None => True end ->
+  block tps (P (MLevel 0)) (fpr dec (XBlock ss r) ++ ts) = Some (XBlock ss r, ts).
+Proof.
+  intros Hss Hr. unfold block. cbn [fpr app]. rewrite expect_same.
+  change (fun s : option (pat * option annot) * fexpr => let (bd, x) := s in pr_binder bd ++ fpr dec x ++ [TP Semi])
+    with (pr_stmt dec).
+  rewrite <- !app_assoc. cbn [app].
+  rewrite block_loop_rt; [reflexivity| |exact Hss|exact Hr].
+  pose proof (stmts_length ss (match r with Some x => fpr dec x | None => [] end ++ TP RBrace :: ts)) as H1.
+  rewrite !app_length in *. cbn [length] in *. unfold stmt in *. lia.
+Qed.
+
+(* ---- match arms *)
+Definition arm_ok (pb : arm) : Prop := wf_pat (fst pb) = true /\ fsuff dec (snd pb) = true /\ E0 (snd pb).
+
+Lemma pr_pat_starts p : wf_pat p = true -> exists t l, pr_pat p = t :: l /\ starts_pat t = true.
+Proof.
+  revert p. fix IH 1. intros p Hw. destruct p as [|n|ps|fs|n d|ps]; cbn [pr_pat]; try (eexists _, _; split; reflexivity).
+  - destruct d; eexists _, _; split; reflexivity.
+  - destruct ps as [|q qs]; [discriminate Hw|]. cbn [wf_pat forallb] in Hw.
+    rewrite !andb_true_iff in Hw. destruct Hw as (_ & (_ & Hq) & _).
+    destruct (IH q Hq) as (t & l & E & H1). rewrite bar_sep_cons, E. cbn [app]. eexists _, _; split; [reflexivity|exact H1].
+Qed.
+
+Lemma arms_loop_rt : forall arms n ts, arms <> [] -> length arms < n -> (forall pb, In pb arms -> arm_ok pb) ->
+  arms_loop (P (MLevel 0)) n (flat_map (pr_arm dec) arms ++ TP RBrace :: ts) = Some (arms, TP RBrace :: ts).
+Proof.
+  induction arms as [|[p b] more IH]; intros n ts Hne Hn Hok; [congruence|].
+  destruct n as [|n]; [cbn in Hn; lia|].
+  destruct (Hok _ (or_introl eq_refl)) as (Hp & Hsb & Heb). cbn [fst snd] in *.
+  cbn [flat_map arms_loop]. unfold pr_arm at 1. rewrite <- !app_assoc. cbn [app]. rewrite <- !app_assoc. cbn [app].
+  rewrite pattern_roundtrip; [|exact Hp|exact I]. rewrite expect_same.
+  rewrite (Heb (TP Comma :: flat_map (pr_arm dec) more ++ TP RBrace :: ts) I). cbn [hd_is is_p punct_eqb]. rewrite expect_same.
+  destruct more as [|[p2 b2] more'].
+  - cbn [flat_map app hd_is starts_pat]. reflexivity.
+  - assert (Hok' : forall pb, In pb ((p2, b2) :: more') -> arm_ok pb) by (intros pb Hpb; apply Hok; right; exact Hpb).
+    destruct (Hok' _ (or_introl eq_refl)) as (Hp2 & _ & _). cbn [fst] in Hp2.
+    assert (Hst : hd_is starts_pat (flat_map (pr_arm dec) ((p2, b2) :: more') ++ TP RBrace :: ts) = true).
+    { cbn [flat_map]. unfold pr_arm at 1. destruct (pr_pat_starts p2 Hp2) as (t & l & E & Ht). rewrite E. cbn [app hd_is]. exact Ht. }
+    unfold arm in *. rewrite Hst. rewrite (IH n ts); [reflexivity|discriminate|cbn [length] in *; lia|exact Hok'].
+Qed.
+
+Lemma arms_length arms l : length arms <= length (flat_map (pr_arm dec) arms ++ l).
+Proof.
+  induction arms as [|[p b] more IH]; cbn [flat_map length app]; [lia|]. unfold pr_arm at 1.
+  rewrite !app_length in *. cbn [length]. rewrite app_length. cbn [length]. lia.
+Qed.
+
+(* ---- if / else *)
+Lemma ifelse_mono pe : forall n n' ts x, ifelse tps pe n ts = Some x -> n <= n' -> ifelse tps pe n' ts = Some x.
+Proof.
+  induction n as [|n IH]; intros n' ts x H Hle; [discriminate|].
+  destruct n' as [|n']; [lia|]. cbn [ifelse] in *.
+  repeat match type of H with
+  | context [ifelse tps pe n ?t] =>
+      let E := fresh "E" in
+      destruct (ifelse tps pe n t) as [[? ?]|] eqn:E; [rewrite (IH n' t _ E) by lia|discriminate H]
+  | context [match ?x with _ => _ end] =>
+      lazymatch x with
+      | context [match _ with _ => _ end] => fail
+      | _ => destruct x eqn:?; try discriminate H
+      end
+  | context [if ?c then _ else _] =>
+      lazymatch c with
+      | context [match _ with _ => _ end] => fail
+      | _ => destruct c eqn:?; try discriminate H
+      end
+  end; exact H.
+Qed.
+
+Lemma P_level0_match l : P (MLevel 0) (TK KMatch :: l) =
+  match P (MLevel 0) l with
+  | Some (s, r1) =>
+      match expect LBrace r1 with
+      | Some r2 =>
+          match arms_loop (P (MLevel 0)) (S (length r2)) r2 with
+          | Some (arms, r3) => match expect RBrace r3 with Some r4 => Some (XMatch s arms, r4) | None => None end
+          | None => None
+          end
+      | None => None
+      end
+  | None => None
+  end.
+Proof. rewrite (pmode_eq tps (MLevel 0)). reflexivity. Qed.
+
+Lemma P_level0_if l : P (MLevel 0) (TK KIf :: l) = ifelse tps (P (MLevel 0)) (S (length (TK KIf :: l))) (TK KIf :: l).
+Proof. rewrite (pmode_eq tps (MLevel 0)). reflexivity. Qed.
+
+(* ---- postfix steps *)
+Lemma targs_opt_rt tas ts : forallb (annot_ok tps) tas = true -> (tas = [] -> not_lt ts) ->
+  targs_opt (parse_annot tps) (pr_targs tas ++ ts) = Some (tas, ts).
+Proof.
+  intros Hok Hnl. destruct tas as [|t more].
+  - cbn [pr_targs app]. specialize (Hnl eq_refl). unfold targs_opt.
+    destruct ts as [|[q|p|x|x|z|s|o] ts']; try reflexivity. destruct o; try reflexivity. destruct Hnl.
+  - unfold pr_targs. cbn [app targs_opt]. rewrite <- app_assoc. cbn [app].
+    rewrite (seplist_rt (parse_annot tps) is_gt pr_annot (canon tps) not_lt t more _ (TOp Gt) ts).
+    + rewrite expect_op_same.
+      assert (Hm : map (canon tps) (t :: more) = t :: more).
+      { transitivity (map (fun x : annot => x) (t :: more)); [|apply map_id]. apply map_ext_in.
+        intros a Ha. apply annot_ok_canon. exact (forallb_In _ _ _ Hok Ha). }
+      rewrite Hm. reflexivity.
+    + rewrite app_length, commas_cons, app_length. pose proof (tails_length pr_annot more). cbn [length]. lia.
+    + discriminate.
+    + exact I.
+    + intros l. exact I.
+    + intros y Hy. destruct (pr_annot_head y) as (t0 & l0 & E & H1 & _). exists t0, l0. split; assumption.
+    + intros y tail Hy Hf. apply annot_roundtrip'. exact Hf.
+Qed.
+
+Lemma P_post_field a (up : bool) f tas ts : forallb (annot_ok tps) tas = true -> (tas = [] -> not_lt ts) ->
+  P (MPost a) (TP Dot :: (if up then TUp f else TLow f) :: pr_targs tas ++ ts) = P (MPost (XField a up f tas)) ts.
+Proof.
+  intros Hok Hnl. rewrite (pmode_eq tps (MPost a)). cbn [estep post_step].
+  destruct up; rewrite (targs_opt_rt tas ts Hok Hnl); reflexivity.
+Qed.
+
+Lemma P_post_call a args ts : (forall x, In x args -> fsuff dec x = true /\ E0 x) ->
+  P (MPost a) (TP LParen :: commas (map (fpr dec) args) ++ TP RParen :: ts) = P (MPost (XCall a args)) ts.
+Proof. intros Hall. rewrite (pmode_eq tps (MPost a)). cbn [estep post_step]. rewrite args_rt by exact Hall. reflexivity. Qed.
+
+(* ---- descending between levels *)
+Lemma step_down k t rest c ts : k <= 8 -> S k <= fhd_level t -> ffollow_ok k ts ->
+  P (MLevel (S k)) (t :: rest) = Some (c, ts) -> P (MLevel k) (t :: rest) = Some (c, ts).
+Proof.
+  intros Hk Hh Hf Hp.
+  destruct (Nat.eq_dec k 8) as [->|].
+  { rewrite (P_level8_step _ _ _ Hp). apply P_post_exit. exact Hf. }
+  destruct (Nat.eq_dec k 7) as [->|].
+  { rewrite P_level7_step by lia. exact Hp. }
+  destruct (Nat.eq_dec k 0) as [->|].
+  { rewrite P_level0_step by lia. exact Hp. }
+  rewrite (P_level_step k _ _ _ ltac:(lia) Hp). apply P_loop_exit. exact Hf.
+Qed.
+
+Lemma descend : forall d k t rest c ts, k + d <= 9 -> k + d <= fhd_level t -> ffollow_ok k ts ->
+  P (MLevel (k + d)) (t :: rest) = Some (c, ts) -> P (MLevel k) (t :: rest) = Some (c, ts).
+Proof.
+  induction d as [|d IH]; intros k t rest c ts Hk Hh Hf Hp.
+  - now rewrite Nat.add_0_r in Hp.
+  - apply step_down; [lia|lia|exact Hf|].
+    apply (IH (S k)); [lia|lia| |].
+    + eapply ffollow_ok_mono; [|exact Hf]. lia.
+    + now replace (S k + d) with (k + S d) by lia.
+Qed.
+
+Lemma descend_to k j t rest c ts : k <= j -> j <= 9 -> j <= fhd_level t -> ffollow_ok k ts ->
+  P (MLevel j) (t :: rest) = Some (c, ts) -> P (MLevel k) (t :: rest) = Some (c, ts).
+Proof.
+  intros H1 H2 H3 Hf Hp. apply (descend (j - k) k); try (replace (k + (j - k)) with j by lia); auto.
+Qed.
+
+(* ---- the three induction predicates *)
+Definition efp (b : bool) (c : fexpr) : bool := negb b && fends_field dec c.
+
+Definition A (c : fexpr) : Prop := forall k b ts, k <= 9 -> (flevel c < k -> b = true) ->
+  ffollow_ok k ts -> (efp b c = true -> not_lt ts) -> P (MLevel k) (fwrap b (fpr dec c) ++ ts) = Some (c, ts).
+Definition L (c : fexpr) : Prop := forall j b ts, 1 <= j <= 6 -> (flevel c < j -> b = true) ->
+  ffollow_ok (S j) ts -> (efp b c = true -> not_lt ts) ->
+  P (MLevel j) (fwrap b (fpr dec c) ++ ts) = P (MLoop j c) ts.
+Definition Pp (c : fexpr) : Prop := forall b ts, (flevel c < 8 -> b = true) ->
+  ffollow_ok 9 ts -> (efp b c = true -> not_lt ts) ->
+  P (MLevel 8) (fwrap b (fpr dec c) ++ ts) = P (MPost c) ts.
+Definition A0 (c : fexpr) : Prop := forall ts, ffollow_ok (flevel c) ts ->
+  (fends_field dec c = true -> not_lt ts) -> P (MLevel (flevel c)) (fpr dec c ++ ts) = Some (c, ts).
+
+Lemma sep_tail_follow ts : sep_tail ts -> ffollow_ok 0 ts /\ not_lt ts.
+Proof. destruct ts as [|[q|p|x|x|z|s|o] ts']; cbn; try tauto. destruct p; tauto. Qed.
+
+Lemma E0_of_A c : A c -> E0 c.
+Proof.
+  intros HA tail Ht. destruct (sep_tail_follow _ Ht) as [H1 H2].
+  apply (HA 0 false tail); [lia|lia|exact H1|intros _; exact H2].
+Qed.
+
+Lemma A_of_A0 c : fsuff dec c = true -> A0 c -> A c.
+Proof.
+  intros Hs H0 k b ts Hk Hb Hf Hlt. pose proof (flevel_bound c) as Hbound.
+  destruct (fpr_head dec c Hs) as (t & rest & E & Hh & _).
+  assert (Hunp : forall k' ts', k' <= flevel c -> ffollow_ok k' ts' -> (fends_field dec c = true -> not_lt ts') ->
+                 P (MLevel k') (fpr dec c ++ ts') = Some (c, ts')).
+  { intros k' ts' Hk' Hf' Hl'. specialize (H0 ts'). rewrite E in *. cbn [app] in *.
+    apply (descend_to k' (flevel c)); auto. apply H0; [|exact Hl']. eapply ffollow_ok_mono; eauto. }
+  destruct b; cbn [fwrap].
+  - cbn [app]. rewrite <- app_assoc. cbn [app].
+    apply (descend_to k 9); [lia|lia|cbn; lia|exact Hf|].
+    apply paren_wrap; [exact Hs| |eapply ffollow_ok_mono; [|exact Hf]; lia].
+    intros tail Ht. destruct (sep_tail_follow _ Ht) as [H1 H2]. apply Hunp; [lia|exact H1|intros _; exact H2].
+  - apply Hunp; [|exact Hf|exact Hlt]. destruct (Nat.lt_ge_cases (flevel c) k) as [Hl|]; [|assumption].
+    specialize (Hb Hl). discriminate.
+Qed.
+
+Lemma P_of_A c : A c -> flevel c <> 8 -> Pp c.
+Proof.
+  intros HA Hne b ts Hb Hf Hlt. apply P_level8_step.
+  apply (HA 9 b ts); [lia| |exact Hf|exact Hlt]. intros Hl. apply Hb. lia.
+Qed.
+
+Lemma L_of_A c : A c -> (flevel c = 0 \/ 7 <= flevel c) -> L c.
+Proof.
+  intros HA Hl j b ts Hj Hb Hf Hlt. apply P_level_step; [lia|].
+  apply (HA (S j) b ts); [lia| |exact Hf|exact Hlt]. intros Hl'. apply Hb. lia.
+Qed.
+
+Lemma nstr_eqb_eq a b : nstr_eqb a b = true -> a = b.
+Proof.
+  unfold nstr_eqb. apply list_eqb_eq. intros x y _ H. apply N.eqb_eq. exact H.
+Qed.
+
+Lemma str_ok_roundtrip s : str_ok s = true -> unescape (escape s) = s.
+Proof.
+  unfold str_ok. destruct (walk (escape s) false) as [[|]|]; try discriminate. apply nstr_eqb_eq.
+Qed.
+
+Lemma fall_in (Q : fexpr -> bool) l x : forallb (fall Q) l = true -> In x l -> fall Q x = true.
+Proof. intros H Hi. exact (forallb_In _ _ _ H Hi). Qed.
+
+Lemma ALP_of_A0 c : fsuff dec c = true -> A0 c -> (flevel c = 0 \/ flevel c = 7 \/ flevel c = 9) -> A c /\ L c /\ Pp c.
+Proof.
+  intros Hs H0 Hl. pose proof (A_of_A0 c Hs H0) as HA.
+  split; [exact HA|]. split; [apply L_of_A; [exact HA|lia]|apply P_of_A; [exact HA|lia]].
+Qed.
+
+Lemma ltb_true a b : a < b -> (a <? b) = true.
+Proof. intros. apply Nat.ltb_lt. assumption. Qed.
+
+Theorem all_ALP : forall n c, fsize c <= n -> fsuff dec c = true -> fwf tps c = true -> A c /\ L c /\ Pp c.
+Proof.
+  induction n as [|n IH]; intros c Hsz Hs Hw; [destruct c; cbn in Hsz; lia|].
+  pose proof (fsuff_node_of dec c Hs) as Hn.
+  assert (IHE : forall x, fsize x <= n -> fsuff dec x = true -> fwf tps x = true -> fsuff dec x = true /\ E0 x).
+  { intros x Hx Hsx Hwx. split; [exact Hsx|]. apply E0_of_A. apply (IH x Hx Hsx Hwx). }
+  unfold fsuff, fwf in Hs, Hw.
+  destruct c as [l|x| |x|es|a up f tas|a args|u a|o a b|g c b1 e2|s arms|ps b|ss r];
+    cbn [fall] in Hs, Hw; cbn [fsize] in Hsz; rewrite ?andb_true_iff in Hs, Hw.
+  - (* literal *)
+    apply ALP_of_A0; [exact (proj2 (andb_true_iff _ _) (conj (proj1 Hs) eq_refl))| |cbn; tauto].
+    intros ts _ _. cbn [flevel fpr app]. rewrite P_level9. destruct Hw as [Hw _]. cbn [fwf_node] in Hw.
+    destruct l as [z|str|[]]; cbn [pr_lit base_expr]; try reflexivity. rewrite (str_ok_roundtrip str Hw). reflexivity.
+  - apply ALP_of_A0; [exact (proj2 (andb_true_iff _ _) (conj (proj1 Hs) eq_refl))| |cbn; tauto].
+    intros ts _ _. cbn [flevel fpr app]. rewrite P_level9. reflexivity.
+  - apply ALP_of_A0; [exact (proj2 (andb_true_iff _ _) (conj (proj1 Hs) eq_refl))| |cbn; tauto].
+    intros ts _ _. cbn [flevel fpr app]. rewrite P_level9. reflexivity.
+  - apply ALP_of_A0; [exact (proj2 (andb_true_iff _ _) (conj (proj1 Hs) eq_refl))| |cbn; tauto].
+    intros ts _ _. cbn [flevel fpr app]. rewrite P_level9. reflexivity.
+  - (* tuple *)
+    destruct Hs as [Hsn Hsc], Hw as [Hwn Hwc]. cbn [fwf_node] in Hwn. rewrite andb_true_iff in Hwn. destruct Hwn as [Hlen Hmax].
+    assert (Hall : forall y, In y es -> fsuff dec y = true /\ E0 y).
+    { intros y Hy. apply IHE; [|exact (fall_in _ _ _ Hsc Hy)|exact (fall_in _ _ _ Hwc Hy)].
+      pose proof (in_size_le fsize y es Hy). lia. }
+    apply ALP_of_A0; [unfold fsuff; cbn [fall]; rewrite Hsn, Hsc; reflexivity| |cbn; tauto].
+    intros ts Hf _. cbn [flevel] in *. destruct es as [|e1 [|e2 es']]; try (cbn in Hlen; discriminate).
+    cbn [fpr app]. rewrite <- app_assoc. cbn [app]. apply tuple_rt; [exact Hall| |exact Hf].
+    apply orb_prop in Hmax. destruct Hmax as [H|H]; [left; apply Nat.leb_le; exact H|right; exact H].
+  - (* field access *)
+    destruct Hs as [Hsn Hsa], Hw as [Hwn Hwa]. cbn [fwf_node] in Hwn.
+    destruct (IH a ltac:(lia) Hsa Hwa) as (Aa & La & Pa).
+    assert (Hs' : fsuff dec (XField a up f tas) = true) by (unfold fsuff; cbn [fall]; rewrite Hsn; exact Hsa).
+    assert (Hb1 : flevel a < 8 -> dec (XField a up f tas) SBase = true).
+    { intros Hlt. apply (fsuff_node_side dec _ SBase Hn). apply fneed_level_need. cbn [fneed_level]. apply ltb_true. exact Hlt. }
+    assert (Hnl : forall ts, (fends_field dec (XField a up f tas) = true -> not_lt ts) -> tas = [] -> not_lt ts).
+    { intros ts H ->. apply H. reflexivity. }
+    assert (HA : A (XField a up f tas)).
+    { apply A_of_A0; [exact Hs'|]. intros ts Hf Hlt. cbn [flevel fpr] in *. rewrite <- app_assoc. cbn [app].
+      rewrite Pa; [|exact Hb1|cbn; lia|intros _; exact I]. rewrite P_post_field; [|exact Hwn|apply Hnl; exact Hlt].
+      apply P_post_exit. exact Hf. }
+    split; [exact HA|]. split; [apply L_of_A; [exact HA|cbn; lia]|].
+    intros bb ts Hb Hf Hlt. destruct bb.
+    + apply P_level8_step. apply (HA 9 true ts); [lia|reflexivity|exact Hf|intros H; discriminate H].
+    + cbn [fwrap fpr]. rewrite <- app_assoc. cbn [app].
+      rewrite Pa; [|exact Hb1|cbn; lia|intros _; exact I]. apply P_post_field; [exact Hwn|].
+      apply Hnl. intros H. apply Hlt. unfold efp. rewrite H. reflexivity.
+  - (* call *)
+    destruct Hs as [Hsn [Hsa Hsargs]], Hw as [Hwn [Hwa Hwargs]].
+    destruct (IH a ltac:(lia) Hsa Hwa) as (Aa & La & Pa).
+    assert (Hs' : fsuff dec (XCall a args) = true) by (unfold fsuff; cbn [fall]; rewrite Hsn, Hsa, Hsargs; reflexivity).
+    assert (Hall : forall y, In y args -> fsuff dec y = true /\ E0 y).
+    { intros y Hy. apply IHE; [|exact (fall_in _ _ _ Hsargs Hy)|exact (fall_in _ _ _ Hwargs Hy)].
+      pose proof (in_size_le fsize y args Hy). lia. }
+    assert (Hb1 : flevel a < 8 -> dec (XCall a args) SBase = true).
+    { intros Hlt. apply (fsuff_node_side dec _ SBase Hn). apply fneed_level_need. cbn [fneed_level]. apply ltb_true. exact Hlt. }
+    assert (HA : A (XCall a args)).
+    { apply A_of_A0; [exact Hs'|]. intros ts Hf _. cbn [flevel fpr] in *. rewrite <- app_assoc. cbn [app].
+      rewrite <- app_assoc. cbn [app].
+      rewrite Pa; [|exact Hb1|cbn; lia|intros _; exact I]. rewrite P_post_call by exact Hall.
+      apply P_post_exit. exact Hf. }
+    split; [exact HA|]. split; [apply L_of_A; [exact HA|cbn; lia]|].
+    intros bb ts Hb Hf Hlt. destruct bb.
+    + apply P_level8_step. apply (HA 9 true ts); [lia|reflexivity|exact Hf|intros H; discriminate H].
+    + cbn [fwrap fpr]. rewrite <- app_assoc. cbn [app]. rewrite <- app_assoc. cbn [app].
+      rewrite Pa; [|exact Hb1|cbn; lia|intros _; exact I]. apply P_post_call. exact Hall.
+  - (* unary *)
+    destruct Hs as [Hsn Hsa], Hw as [Hwn Hwa].
+    destruct (IH a ltac:(lia) Hsa Hwa) as (Aa & _ & _).
+    assert (Hb1 : flevel a < 8 -> dec (XUn u a) SArg = true).
+    { intros Hlt. apply (fsuff_node_side dec _ SArg Hn). apply fneed_level_need. cbn [fneed_level]. apply ltb_true. exact Hlt. }
+    apply ALP_of_A0; [unfold fsuff; cbn [fall]; rewrite Hsn; exact Hsa| |cbn; tauto].
+    intros ts Hf Hlt. cbn [flevel fpr] in *. cbn [app].
+    apply P_unary. apply Aa; [lia|exact Hb1| |exact Hlt]. eapply ffollow_ok_mono; [|exact Hf]. lia.
+  - (* binary *)
+    destruct Hs as [Hsn [Hsa Hsb]], Hw as [Hwn [Hwa Hwb]].
+    destruct (IH a ltac:(lia) Hsa Hwa) as (Aa & La & _). destruct (IH b ltac:(lia) Hsb Hwb) as (Ab & _ & _).
+    pose proof (plevel_bounds o) as Ho.
+    assert (Hs' : fsuff dec (XBin o a b) = true) by (unfold fsuff; cbn [fall]; rewrite Hsn, Hsa, Hsb; reflexivity).
+    assert (Hbl : flevel a < plevel o -> dec (XBin o a b) SLeft = true).
+    { intros Hlt. apply (fsuff_node_side dec _ SLeft Hn). apply fneed_level_need. cbn [fneed_level]. apply ltb_true. exact Hlt. }
+    assert (Hbl_lt : efp (dec (XBin o a b) SLeft) a = true -> not_lt (TOp o :: fwrap (dec (XBin o a b) SRight) (fpr dec b))).
+    { intros He. destruct o; try exact I. unfold efp in He. apply andb_prop in He. destruct He as [He1 He2].
+      rewrite (fsuff_node_side dec _ SLeft Hn) in He1; [discriminate|].
+      unfold fneed. cbn [fneed_lt is_lt]. rewrite He2. apply orb_true_r. }
+    assert (Hbr : flevel b < S (plevel o) -> dec (XBin o a b) SRight = true).
+    { intros Hlt. apply (fsuff_node_side dec _ SRight Hn). apply fneed_level_need. cbn [fneed_level]. apply ltb_true. exact Hlt. }
+    assert (Hchain : forall ts, ffollow_ok (S (plevel o)) ts -> (fends_field dec (XBin o a b) = true -> not_lt ts) ->
+                     P (MLevel (plevel o)) (fpr dec (XBin o a b) ++ ts) = P (MLoop (plevel o) (XBin o a b)) ts).
+    { intros ts Hf Hlt. cbn [fpr]. rewrite <- app_assoc. cbn [app].
+      rewrite La; [|lia|exact Hbl|cbn; lia|].
+      - apply P_loop_step; [reflexivity|]. apply Ab; [lia|exact Hbr|exact Hf|exact Hlt].
+      - intros He. specialize (Hbl_lt He). destruct o; exact I || exact Hbl_lt. }
+    assert (HA : A (XBin o a b)).
+    { apply A_of_A0; [exact Hs'|]. intros ts Hf Hlt. cbn [flevel] in *.
+      rewrite Hchain; [|eapply ffollow_ok_mono; [|exact Hf]; lia|exact Hlt]. apply P_loop_exit. exact Hf. }
+    split; [exact HA|]. split.
+    + intros j bf ts Hj Hb Hf Hlt. cbn [flevel] in Hb.
+      destruct bf.
+      * apply P_level_step; [lia|]. apply (HA (S j) true ts); [lia|reflexivity|exact Hf|intros H; discriminate H].
+      * cbn [fwrap].
+        destruct (Nat.eq_dec (plevel o) j) as [<-|Hne].
+        -- apply Hchain; [exact Hf|]. intros H. apply Hlt. unfold efp. rewrite H. reflexivity.
+        -- apply P_level_step; [lia|].
+           assert (Hge : j <= plevel o).
+           { destruct (Nat.lt_ge_cases (plevel o) j) as [Hl|]; [specialize (Hb Hl); discriminate|assumption]. }
+           apply (HA (S j) false ts); [lia| |exact Hf|exact Hlt]. cbn [flevel]. intros. lia.
+    + intros bf ts Hb Hf Hlt. cbn [flevel] in Hb. rewrite (Hb ltac:(lia)).
+      apply P_level8_step. apply (HA 9 true ts); [lia|reflexivity|exact Hf|intros H; discriminate H].
+  - (* if / else *)
+    destruct Hs as [Hsn [[Hsc Hs1] Hs2]], Hw as [Hwn [[Hwc Hw1] Hw2]].
+    cbn [fwf_node] in Hwn. rewrite !andb_true_iff in Hwn. destruct Hwn as [[Hg Hb1] He2].
+    destruct (IHE c ltac:(lia) Hsc Hwc) as [_ Ec].
+    assert (Hblock : forall blk tail, is_block blk = true -> fsize blk <= n -> fsuff dec blk = true -> fwf tps blk = true ->
+              block tps (P (MLevel 0)) (fpr dec blk ++ tail) = Some (blk, tail)).
+    { intros blk tail Hb Hz Hsb Hwb. destruct blk as [| | | | | | | | | | | |ss r]; try discriminate.
+      unfold fsuff, fwf in Hsb, Hwb. cbn [fall] in Hsb, Hwb. cbn [fsize] in Hz. rewrite ?andb_true_iff in Hsb, Hwb.
+      destruct Hsb as [_ [Hss Hsr]], Hwb as [Hwbn [Hws Hwr]]. cbn [fwf_node] in Hwbn.
+      apply block_rt.
+      - intros st Hst. pose proof (forallb_In _ _ _ Hss Hst) as H1. pose proof (forallb_In _ _ _ Hws Hst) as H2.
+        pose proof (forallb_In _ _ _ Hwbn Hst) as H3. cbn beta in H1, H2, H3.
+        pose proof (in_size_le (fun s0 : option (pat * option annot) * fexpr => fsize (snd s0)) st ss Hst) as H4. cbn beta in H4.
+        destruct (IHE (snd st) ltac:(lia) H1 H2) as [H5 H6]. split; [exact H5|]. split; [exact H6|].
+        destruct (fst st) as [[p oa]|]; [|exact I]. apply andb_prop in H3. exact H3.
+      - destruct r as [x|]; [|exact I]. apply IHE; [lia|exact Hsr|exact Hwr]. }
+    apply ALP_of_A0; [unfold fsuff; cbn [fall]; rewrite Hsn, Hsc, Hs1, Hs2; reflexivity| |cbn; tauto].
+    intros ts Hf _. cbn [flevel] in Hf. cbn [flevel fpr]. cbn [app]. rewrite P_level0_if. cbn [ifelse]. rewrite expect_kw_same.
+    assert (Hcond : (if hd_is (is_kw KLet) ((match g with Some p => TK KLet :: pr_pat p ++ [TP Assign] | None => [] end
+                                              ++ fpr dec c ++ fpr dec b1 ++ TK KElse :: fpr dec e2) ++ ts)
+             then match expect_kw KLet ((match g with Some p => TK KLet :: pr_pat p ++ [TP Assign] | None => [] end
+                                              ++ fpr dec c ++ fpr dec b1 ++ TK KElse :: fpr dec e2) ++ ts) with
+                  | Some q0 => match parse_pat q0 with
+                               | Some (p, q1) => match expect Assign q1 with
+                                                 | Some q2 => match P (MLevel 0) q2 with
+                                                              | Some (c0, q3) => Some (Some p, c0, q3)
+                                                              | None => None end
+                                                 | None => None end
+                               | None => None end
+                  | None => None end
+             else match P (MLevel 0) ((match g with Some p => TK KLet :: pr_pat p ++ [TP Assign] | None => [] end
+                                              ++ fpr dec c ++ fpr dec b1 ++ TK KElse :: fpr dec e2) ++ ts) with
+                  | Some (c0, q3) => Some (None, c0, q3)
+                  | None => None end)
+             = Some (g, c, fpr dec b1 ++ TK KElse :: fpr dec e2 ++ ts)).
+    { assert (Htail : sep_tail (fpr dec b1 ++ TK KElse :: fpr dec e2 ++ ts)).
+      { destruct b1; try discriminate. cbn [fpr app]. exact I. }
+      destruct g as [p|].
+      - cbn [app hd_is is_kw kw_eqb]. rewrite expect_kw_same. rewrite <- !app_assoc. cbn [app].
+        rewrite pattern_roundtrip; [|exact Hg|exact I]. rewrite expect_same.
+        rewrite (Ec _ Htail). reflexivity.
+      - cbn [app]. rewrite <- !app_assoc.
+        destruct (fpr_head dec c Hsc) as (t & rest & E & _ & Het).
+        assert (Hk : hd_is (is_kw KLet) (fpr dec c ++ fpr dec b1 ++ (TK KElse :: fpr dec e2) ++ ts) = false).
+        { rewrite E. cbn [app hd_is]. destruct t as [q|p|x|x|z|s|o]; try reflexivity. destruct q; try discriminate; reflexivity. }
+        rewrite Hk. cbn [app]. rewrite (Ec _ Htail). reflexivity. }
+    rewrite Hcond. cbn [fst snd].
+    rewrite (Hblock b1 _ Hb1 ltac:(lia) Hs1 Hw1). rewrite expect_kw_same.
+    apply orb_prop in He2. destruct He2 as [He2|He2].
+    + assert (Hk : hd_is (is_kw KIf) (fpr dec e2 ++ ts) = false) by (destruct e2; try discriminate; reflexivity).
+      rewrite Hk. rewrite (Hblock e2 _ He2 ltac:(lia) Hs2 Hw2). reflexivity.
+    + assert (Hk : exists l, fpr dec e2 ++ ts = TK KIf :: l) by (destruct e2; try discriminate; eexists; reflexivity).
+      destruct Hk as [l Hl]. rewrite Hl. cbn [hd_is is_kw kw_eqb].
+      destruct (IH e2 ltac:(lia) Hs2 Hw2) as (A2 & _ & _).
+      assert (H2 : P (MLevel 0) (TK KIf :: l) = Some (e2, ts)).
+      { rewrite <- Hl. apply (A2 0 false ts); [lia|lia|exact Hf|]. intros H. destruct e2; discriminate. }
+      rewrite P_level0_if in H2.
+      rewrite (ifelse_mono (P (MLevel 0)) _ _ _ _ H2); [reflexivity|].
+      assert (Hlen : length (TK KIf :: l) = length (fpr dec e2) + length ts) by (rewrite <- Hl; apply app_length).
+      rewrite Hlen. cbn [length]. repeat (rewrite app_length; cbn [length]). lia.
+  - (* match *)
+    destruct Hs as [Hsn [Hss Hsarms]], Hw as [Hwn [Hws Hwarms]].
+    cbn [fwf_node] in Hwn. rewrite andb_true_iff in Hwn. destruct Hwn as [Hne Hpats].
+    destruct (IHE s ltac:(lia) Hss Hws) as [_ Es].
+    apply ALP_of_A0; [unfold fsuff; cbn [fall]; rewrite Hsn, Hss, Hsarms; reflexivity| |cbn; tauto].
+    intros ts _ _. cbn [flevel fpr]. cbn [app]. rewrite <- !app_assoc. cbn [app].
+    rewrite P_level0_match. rewrite Es by exact I. rewrite expect_same.
+    change (fun pb : pat * fexpr => let (p, b) := pb in pr_pat p ++ TP Arrow :: fpr dec b ++ [TP Comma]) with (pr_arm dec).
+    rewrite <- !app_assoc. cbn [app].
+    rewrite arms_loop_rt.
+    + rewrite expect_same. reflexivity.
+    + destruct arms; [discriminate Hne|discriminate].
+    + pose proof (arms_length arms (TP RBrace :: ts)). unfold arm in *. lia.
+    + intros pb Hpb. pose proof (forallb_In _ _ _ Hsarms Hpb) as H1. pose proof (forallb_In _ _ _ Hwarms Hpb) as H2.
+      pose proof (forallb_In _ _ _ Hpats Hpb) as H3. cbn beta in H1, H2, H3.
+      pose proof (in_size_le (fun pb0 : pat * fexpr => fsize (snd pb0)) pb arms Hpb) as H4. cbn beta in H4.
+      destruct (IHE (snd pb) ltac:(lia) H1 H2) as [H5 H6]. split; [exact H3|]. split; assumption.
+  - (* lambda *)
+    destruct Hs as [Hsn Hsb], Hw as [Hwn Hwb]. cbn [fwf_node] in Hwn.
+    destruct (IH b ltac:(lia) Hsb Hwb) as (Ab & _ & _).
+    assert (Hs' : fsuff dec (XLam ps b) = true) by (unfold fsuff; cbn [fall]; rewrite Hsn; exact Hsb).
+    apply ALP_of_A0; [exact Hs'| |cbn; tauto].
+    intros ts Hf Hlt. cbn [flevel] in *. cbn [fpr]. cbn [app]. rewrite <- !app_assoc. cbn [app].
+    apply (descend_to 0 9); [lia|lia|cbn; lia|exact Hf|].
+    apply lambda_rt.
+    + apply Ab; [lia|lia|exact Hf|exact Hlt].
+    + intros p Hp. exact (forallb_In _ _ _ Hwn Hp).
+  - (* block *)
+    destruct Hs as [Hsn [Hss Hsr]], Hw as [Hwn [Hws Hwr]]. cbn [fwf_node] in Hwn.
+    apply ALP_of_A0; [unfold fsuff; cbn [fall]; rewrite Hsn, Hss, Hsr; reflexivity| |cbn; tauto].
+    intros ts _ _. cbn [flevel]. rewrite P_level9.
+    assert (Hb : exists l, fpr dec (XBlock ss r) ++ ts = TP LBrace :: l) by (eexists; reflexivity).
+    destruct Hb as [l Hl]. rewrite Hl. cbn [base_expr]. rewrite <- Hl.
+    apply block_rt.
+    + intros st Hst. pose proof (forallb_In _ _ _ Hss Hst) as H1. pose proof (forallb_In _ _ _ Hws Hst) as H2.
+      pose proof (forallb_In _ _ _ Hwn Hst) as H3. cbn beta in H1, H2, H3.
+      pose proof (in_size_le (fun s0 : option (pat * option annot) * fexpr => fsize (snd s0)) st ss Hst) as H4. cbn beta in H4.
+      destruct (IHE (snd st) ltac:(lia) H1 H2) as [H5 H6]. split; [exact H5|]. split; [exact H6|].
+      destruct (fst st) as [[p oa]|]; [|exact I]. apply andb_prop in H3. exact H3.
+    + destruct r as [x|]; [|exact I]. apply IHE; [lia|exact Hsr|exact Hwr].
+Qed.
+
+Theorem fpr_roundtrip e : fsuff dec e = true -> fwf tps e = true -> parse_fexpr tps (fpr dec e) = Some e.
+Proof.
+  intros Hs Hw. destruct (all_ALP (fsize e) e (le_n _) Hs Hw) as (HA & _ & _).
+  pose proof (HA 0 false [] ltac:(lia) ltac:(lia) I ltac:(intros _; exact I)) as H.
+  cbn [fwrap] in H. rewrite app_nil_r in H. unfold parse_fexpr, parse_expression. rewrite H. reflexivity.
 Qed.
 End RT.
